@@ -151,6 +151,22 @@ impl<'a> Tr<'a> {
                 Ok(Out { pre, term: t, ty: et, diverges: false })
             }
             Expr::Field(f) => {
+                // `Dereference { ptr }.reff` with `ptr = s.as_ptr() as *const [T; N]`: the first N elements as an array
+                if let (Expr::Struct(st), syn::Member::Named(mem)) = (peel(&f.base), &f.member) {
+                    if (mem == "reff" || mem == "mutt") && st.path.segments.last().map(|s| s.ident == "Dereference").unwrap_or(false) && st.fields.len() == 1 {
+                        if let Expr::Path(pp) = peel(&st.fields[0].expr) {
+                            if let Some(id) = pp.path.get_ident() {
+                                let name = id.to_string();
+                                if let (Some((term, ty, None)), Some(n)) = (self.ptr_alias.get(&name).cloned(), self.ptr_array_len.get(&name).cloned()) {
+                                    let t = self.fresh("t");
+                                    let pre = vec![format!("let {} ← Rs.rawParts {} 0 {}", t, term, n)];
+                                    return Ok(Out { pre, term: t, ty, diverges: false });
+                                }
+                            }
+                        }
+                        return self.err(e.span(), "unrecognised Dereference { ptr } use");
+                    }
+                }
                 let a = self.expr(&f.base, None)?;
                 let bt = self.sub.shallow(&a.ty);
                 match (&f.member, &bt) {
